@@ -52,6 +52,13 @@ def gen_layout(rng, maxchroms=4, maxbins=8, kind=None):
     elif kind == "onebin":
         for c in range(nchr):
             edges.append([0, rng.randint(1, 50)])
+    if nchr >= 3 and rng.random() < 0.08:
+        # a genome that may exceed 2**31 bp in total while every contig (and coordinate, also after
+        # doubling) fits int32
+        maxlen = max(e[-1] for e in edges)
+        scale = 1_000_000_000 // maxlen
+        if scale > 1:
+            edges = [[x * scale for x in e] for e in edges]
     return {"names": names, "edges": edges, "kind": kind}
 
 
@@ -254,6 +261,7 @@ def gen_unordered(rng, layout=None, maxpx=40, symmetric=None, colspec=None, maxc
         "unordered": {"mergebuf": mergebuf, "max_merge": max_merge, "ensure_sorted": ensure_sorted,
                       "delete_temp": rng.random() >= 0.15},
         "id_dtype": rng.choice(["int64", "int64", "int32"]),
+        "chunk_index": rng.choice(["default", "default", "offset", "permuted"]),
         "layout": layout,
         "symmetric": symmetric,
         "dtypes": colspec,
@@ -286,5 +294,14 @@ def f1_placements(op):
     return out
 
 
-def f2_placements(op):
-    return [{"kind": "F2", "chunk": k} for k in range(len(op["chunks"]) + 1)]
+F2_EXCEPTIONS = ("OSError", "OSError", "EOFError", "MemoryError", "RuntimeError", "KeyboardInterrupt", "GeneratorExit")
+
+
+def f2_placements(op, rng=None):
+    """The input iterator raises before chunk k; the exception class varies (every one of them
+    means "the input stopped", none may pass for the end of the stream)."""
+    out = []
+    for k in range(len(op["chunks"]) + 1):
+        out.append({"kind": "F2", "chunk": k,
+                    "exc": rng.choice(F2_EXCEPTIONS) if rng is not None else "OSError"})
+    return out
